@@ -264,9 +264,12 @@ func TestVerifC20(t *testing.T) {
 				cfg.N = lim
 			}
 		}
+		if cfg.FailAtRec >= cfg.N {
+			cfg.FailAtRec = cfg.N / 2
+		}
 		t0 := time.Now()
 		runOne(r, ci, rng, cfg)
-		if d := time.Since(t0); d > 5*time.Second {
+		if d := time.Since(t0); d > 90*time.Second {
 			r.Note("slow run (%.1fs): case %d %+v", d.Seconds(), ci, cfg)
 		}
 	})
